@@ -19,7 +19,9 @@ import (
 // submitted on clones; each must change nothing, and the genuine token
 // submitted afterwards on that same clone must still be accepted.
 
-func dbEqual(a, b *world.DB) bool { return reflect.DeepEqual(a.Users, b.Users) && reflect.DeepEqual(a.Tokens, b.Tokens) }
+func dbEqual(a, b *world.DB) bool {
+	return reflect.DeepEqual(a.Users, b.Users) && reflect.DeepEqual(a.Tokens, b.Tokens)
+}
 
 // tokenDenotes returns the live secret of kind the submitted string denotes.
 func tokenDenotes(w *world.World, kind, submitted string) *world.Secret {
@@ -360,7 +362,7 @@ func c05Cover(st *engine.Step) []string {
 func c05Scenarios(tier string) []engine.Scenario {
 	depth := 4
 	if tier == "thorough" {
-		depth = 6
+		depth = 5
 	}
 	var out []engine.Scenario
 	type v struct {
@@ -413,9 +415,9 @@ func c05Scenarios(tier string) []engine.Scenario {
 func init() {
 	engine.Register(&engine.Property{
 		ID: "C05", Level: "model_checking",
-		Rule: "E1 over issue / re-issue / use / expiry histories with a reference model of token acceptance on every submission; E2 battery from every distinct reached state with an outstanding token: single-bit flips of the 64 token bytes, length changes, cross-account splices, values built from storage, dead genuine tokens, alternative base64 spellings - each on a clone, followed by the genuine token on that same clone; classes = near-miss classes and accept/reject kinds hit",
-		Units: func(tier string) []engine.Unit { return e1Units(c05Scenarios(tier)) },
-		Need:  []string{"recover:accepted", "confirm:accepted", "recover:rejected:rtok:dead(u1)", "near-miss:rtok:bitflip", "near-miss:ctok:bitflip", "second-use:rtok", "second-use:ctok", "near-miss:rtok:splice-own-sel+other-ver", "near-miss:rtok:dead-genuine(superseded)"},
+		Rule:        "E1 over issue / re-issue / use / expiry histories with a reference model of token acceptance on every submission; E2 battery from every distinct reached state with an outstanding token: single-bit flips of the 64 token bytes, length changes, cross-account splices, values built from storage, dead genuine tokens, alternative base64 spellings - each on a clone, followed by the genuine token on that same clone; classes = near-miss classes and accept/reject kinds hit",
+		Units:       func(tier string) []engine.Unit { return e1Units(c05Scenarios(tier)) },
+		Need:        []string{"recover:accepted", "confirm:accepted", "recover:rejected:rtok:dead(u1)", "near-miss:rtok:bitflip", "near-miss:ctok:bitflip", "second-use:rtok", "second-use:ctok", "near-miss:rtok:splice-own-sel+other-ver", "near-miss:rtok:dead-genuine(superseded)"},
 		Assumptions: []string{"quick tier flips every third bit (all 64 bytes touched), thorough flips all 512", "bounded depth, 3 accounts"},
 	})
 }
